@@ -149,6 +149,11 @@ def build_module(module: str, cls: str, vtype: str, lit: str, deps: list[dict[st
 		# a lambda passed to a method of a generic class taking Callable[[T], None]; instantiations differ between modules
 		lines.append(f'\tbx = GBox[{vtype}]()')
 		lines.append('\tbx.each(lambda e: print(e))')
+		# members typed as containers of the class template, read through this module's instantiation (the defining module reads them through T)
+		lines.append('\tbi = bx.items')
+		lines.append('\tbi2 = bi')
+		lines.append('\tbt = bx.table')
+		lines.append('\tbt2 = bt')
 	if generic:
 		lines.append(f'\thh = IntHolder_{tag}(k)')
 		lines.append('\thv = hh.value')
@@ -341,13 +346,19 @@ T = TypeVar('T')
 
 class GBox(Generic[T]):
 	items: list[T]
+	table: dict[str, list[T]]
 
 	def __init__(self) -> None:
 		self.items = []
+		self.table = {}
 
 	def each(self, f: Callable[[T], None]) -> None:
 		for e in self.items:
 			f(e)
+
+	def copied(self) -> list[T]:
+		own = self.items
+		return own
 '''
 
 SWAP_SRC = ['''class X:
